@@ -50,6 +50,9 @@ func (p *PDU) ProcessRequest(regs RegProvider) (bool, PDU, error) {
 	case FuncCodeReadCoils, FuncCodeReadDiscreteInputs:
 		address := binary.BigEndian.Uint16(p.Data[:2])
 		count := binary.BigEndian.Uint16(p.Data[2:4])
+		if count < 1 || count > MaxReadBits {
+			return p.handleError(ExcIllegalValue)
+		}
 		bytes := byte((count + 7) / 8)
 		resp.Data = make([]byte, 1+bytes)
 		resp.Data[0] = bytes
@@ -69,6 +72,9 @@ func (p *PDU) ProcessRequest(regs RegProvider) (bool, PDU, error) {
 	case FuncCodeReadHoldingRegisters, FuncCodeReadInputRegisters:
 		address := binary.BigEndian.Uint16(p.Data[:2])
 		count := binary.BigEndian.Uint16(p.Data[2:4])
+		if count < 1 || count > MaxReadRegisters {
+			return p.handleError(ExcIllegalValue)
+		}
 
 		resp.Data = make([]byte, 1+2*count)
 		resp.Data[0] = uint8(count * 2)
@@ -110,6 +116,9 @@ func (p *PDU) ProcessRequest(regs RegProvider) (bool, PDU, error) {
 	case FuncCodeWriteMultipleCoils:
 		address := binary.BigEndian.Uint16(p.Data[:2])
 		quantity := binary.BigEndian.Uint16(p.Data[2:4])
+		if quantity < 1 || quantity > MaxWriteCoils {
+			return p.handleError(ExcIllegalValue)
+		}
 		if len(p.Data) != 5+((int(quantity)+7)/8) {
 			return p.handleError(ExcIllegalValue)
 		}
@@ -139,6 +148,9 @@ func (p *PDU) ProcessRequest(regs RegProvider) (bool, PDU, error) {
 	case FuncCodeWriteMultipleRegisters:
 		address := binary.BigEndian.Uint16(p.Data[:2])
 		quantity := binary.BigEndian.Uint16(p.Data[2:4])
+		if quantity < 1 || quantity > MaxWriteRegisters {
+			return p.handleError(ExcIllegalValue)
+		}
 		if len(p.Data) != 5+(int(quantity)*2) {
 			return p.handleError(ExcIllegalValue)
 		}
